@@ -1,7 +1,7 @@
 (* Property C08 — refined sampling and samplers interpolate the discrete solution consistently.
    Statements only; proofs in Proofs/RefineProofs.v (and ColProofs.v for collocation). *)
 From Coq Require Import ZArith QArith Qcanon List Lia Bool.
-From RV Require Import Base.Num Base.PyList Base.Vec Base.Poly Expr Ocp Rows Mech.Grid Mech.Intg
+From RV Require Import Proofs.VacuityA Base.Num Base.PyList Base.Vec Base.Poly Expr Ocp Rows Mech.Grid Mech.Intg
      Mech.Sampling Mech.Refine Mech.Shooting Mech.Colloc Spec.SpecColloc Inst Proofs.QcInst Proofs.RefineProofs Proofs.ColProofs
      Proofs.QuadProofs Proofs.DenseDC.
 Import ListNotations.
@@ -79,3 +79,8 @@ Example C08_nonvacuous :
   map (fun q => this q) (dense_eval (r_poly r) (Q2Qc (1#2))) = [(211#128)%Q] /\
   map (fun q => this q) (r_xf r) = [(211#128)%Q].
 Proof. split; vm_compute; reflexivity. Qed.
+
+(* further witnesses that the hypotheses of this file's theorems are met by realistic inputs (N = 1, M = 1, no controls,
+   t0 = 0, concrete grids / collocation points): proved in Proofs/VacuityA.v by the vacuity audit *)
+Example C08_more_witnesses : True.
+Proof. pose proof sysfun_length_hyp_satisfiable as _. pose proof distinct_radau2 as _. exact I. Qed.
